@@ -284,3 +284,111 @@ Example C09_tr_term_push_runs :
   | CLite.Ok (_, m1) => TrTerm.peek1 m1 GenCFuncs.G_ibuf_cnt = Some IBUFSZ /\ TrTerm.peek m1 GenCFuncs.G_ibuf (Z.to_nat (IBUFSZ + 904)) = repeat (CLite.VInt 65%Z) (Z.to_nat IBUFSZ)
   | _ => False end.
 Proof. cbv zeta. split; [exact (TrTerm.term_at_start _)|]. vm_compute. repeat split; reflexivity. Qed.
+
+(* ---------------------------------------------------------------------------------------------- *)
+(* TIE TO THE C TEXT, part 2 (coq/TrRepeat.v, TrRepeat2.v, TrRepeat3.v; tools/c2clite.d/99zzzzz_repeat.list): the key source of vi.c --
+   vi_read / vi_back (the push-back stack vi_buf), the refill path of term_read (poll(2) / read(2) answered by a kernel oracle whose
+   pending terminal bytes are a memory block), vi_yankbuf, vi_prefix, vc_repeat -- as translated by tools/c2clite.py.  `src` is the state of
+   the source read off the memory (stack, ibuf_pos, ibuf_cnt, ibuf, icmd_pos, icmd, terminal bytes), `keys` the stream vi_read() delivers. *)
+From NV Require CLiteExt TrRepeat TrRepeat2 TrRepeat3.
+Import CLite CLiteProps GenCFuncs CLiteExt TrTerm TrRepeat TrRepeat2 TrRepeat3.
+Local Open Scope Z_scope.
+
+(* term_read() with nothing queued: one byte c from the terminal; ibuf_cnt = ibuf_pos = 1, c recorded in icmd when there is room *)
+Theorem C09_tr_term_read_refill : forall ext kt (m : mem) pos cnt (ib : block) ip (ic : block) c rest d fuel,
+  kernel_ext ext kt ->
+  cell_at m G_ibuf_pos pos -> cell_at m G_ibuf_cnt cnt -> nth_error m G_ibuf = Some ib -> (0 < length ib)%nat ->
+  cnt <= pos -> -2147483648 <= cnt -> pos <= 2147483647 ->
+  tin_at m kt (c :: rest) ->
+  kt <> G_ibuf -> kt <> G_ibuf_pos -> kt <> G_ibuf_cnt -> kt <> G_icmd -> kt <> G_icmd_pos ->
+  cell_at m G_icmd_pos ip -> nth_error m G_icmd = Some ic -> Z.of_nat (length ic) = ICMDSZ -> 0 <= ip <= ICMDSZ ->
+  callx ext cprog fuel (S (S d)) F_term_read [] m = Ok (VInt c, refill_mem m kt ib ip ic c rest).
+Proof. exact tr_term_read_refill. Qed.
+Print Assumptions C09_tr_term_read_refill.
+
+(* ... and at the end of the terminal's input: -1, nothing recorded, the queue untouched *)
+Theorem C09_tr_term_read_eof : forall ext kt (m : mem) pos cnt d fuel,
+  kernel_ext ext kt -> cell_at m G_ibuf_pos pos -> cell_at m G_ibuf_cnt cnt ->
+  cnt <= pos -> -2147483648 <= cnt -> pos <= 2147483647 -> tin_at m kt [] ->
+  callx ext cprog fuel (S (S d)) F_term_read [] m = Ok (VInt (-1), m ++ [ufds_blk]).
+Proof. exact tr_term_read_eof. Qed.
+Print Assumptions C09_tr_term_read_eof.
+
+(* vi_read(): a pushed-back key first *)
+Theorem C09_tr_vi_read_stack : forall ext (m : mem) k stk (vb : block) d fuel,
+  vibuf_at m (k :: stk) vb ->
+  callx ext cprog fuel (S d) F_vi_read [] m = Ok (VInt k, upd m G_vi_buflen [VInt (Z.of_nat (length stk))]).
+Proof. exact tr_vi_read_stack. Qed.
+Print Assumptions C09_tr_vi_read_stack.
+
+(* vi_back(c): one more key on the stack (depth below the 128 ints of vi_buf; the C text's guard says sizeof = 512) *)
+Theorem C09_tr_vi_back : forall ext (m : mem) c stk (vb : block) d fuel,
+  vibuf_at m stk vb -> (length stk < VIBUF)%nat -> -2147483648 <= c <= 2147483647 ->
+  callx ext cprog fuel (S d) F_vi_back [VInt c] m
+  = Ok (VUndef, upd (upd m G_vi_buflen [VInt (Z.of_nat (S (length stk)))]) G_vi_buf (upd vb (length stk) (VInt c))).
+Proof. exact tr_vi_back. Qed.
+Print Assumptions C09_tr_vi_back.
+
+(* one vi_read() on the C text over the kernel, in EVERY state of the source: the key and the state of the model vi_read_m (stack, else
+   queue head -- recorded --, else one terminal byte -- recorded --, else -1), everything outside the eight blocks of the source kept *)
+Theorem C09_tr_vi_read : forall ext kt (m : mem) (s : src) d fuel, kernel_ext ext kt -> kt_fresh kt -> src_at kt m s ->
+  exists m', callx ext cprog fuel (S (S (S d))) F_vi_read [] m = Ok (VInt (fst (vi_read_m s)), m') /\
+             src_at kt m' (snd (vi_read_m s)) /\ keeps kt m m'.
+Proof. exact read_step. Qed.
+Print Assumptions C09_tr_vi_read.
+
+(* the source is a stream: a read takes the head of `keys` (or answers -1 at its end), a push-back conses *)
+Theorem C09_tr_vi_read_keys : forall kt (m : mem) (s : src), src_at kt m s ->
+  fst (vi_read_m s) = hd (-1) (keys s) /\ keys (snd (vi_read_m s)) = tl (keys s).
+Proof. exact vi_read_keys. Qed.
+Print Assumptions C09_tr_vi_read_keys.
+
+(* the oracle that links X_vi_read / X_vi_back (the calls written in vi.c) to the translated vi_read / vi_back over the kernel satisfies
+   the hypotheses of the theorems below *)
+Theorem C09_tr_link : forall ext kt fuel d, kernel_ext ext kt -> kt_fresh kt ->
+  reads_ok (link ext fuel (S (S (S d)))) kt /\ back_ok (link ext fuel (S (S (S d)))) kt.
+Proof. intros ext kt fuel d Hk Hf. split; [exact (link_reads_ok ext kt fuel d Hk Hf)|exact (link_back_ok ext kt fuel d Hf)]. Qed.
+Print Assumptions C09_tr_link.
+
+(* vi_yankbuf(): the register prefix *)
+Theorem C09_tr_vi_yankbuf : forall (ext : oracle) kt, reads_ok ext kt -> back_ok ext kt -> forall (m : mem) (s : src) d fuel, src_at kt m s ->
+  exists m', callx ext cprog fuel (S (S d)) F_vi_yankbuf [] m = Ok (VInt (fst (vi_yankbuf_m s)), m') /\
+             src_at kt m' (snd (vi_yankbuf_m s)) /\ keeps kt m m'.
+Proof. exact tr_vi_yankbuf. Qed.
+Print Assumptions C09_tr_vi_yankbuf.
+
+(* vi_prefix(): the count, for digit strings of ANY length (the C text saturates below 10^9: no signed overflow is reached) *)
+Theorem C09_tr_vi_prefix : forall (ext : oracle) kt, reads_ok ext kt -> back_ok ext kt -> forall (m : mem) (s : src) d fuel,
+  src_at kt m s -> (S (S (length (keys s))) < fuel)%nat ->
+  exists m', callx ext cprog fuel (S (S d)) F_vi_prefix [] m = Ok (VInt (fst (vi_prefix_m s)), m') /\
+             src_at kt m' (snd (vi_prefix_m s)) /\ keeps kt m m' /\ 0 <= fst (vi_prefix_m s) < 1000000000.
+Proof. exact tr_vi_prefix. Qed.
+Print Assumptions C09_tr_vi_prefix.
+(* its digit step is the step of the key automaton of ViKeys.v (PCnt / POpCnt) *)
+Theorem C09_tr_digit_step : forall n (c : N), (48 <= c <= 57)%N -> digit_step n (Z.of_N c) = ViKeys.add_digit n c.
+Proof. exact digit_step_add. Qed.
+Print Assumptions C09_tr_digit_step.
+
+(* vc_repeat(): max(1, vi_arg1) times term_push(rep_cmd, rep_len), for EVERY count *)
+Theorem C09_tr_vc_repeat : forall (ext : oracle) kt, kt_fresh kt -> forall a1 rl (rb : block),
+  -2147483648 <= a1 <= 2147483647 -> 0 <= rl <= Z.of_nat (length rb) -> rl <= 2147483647 -> chars_ok (firstn (Z.to_nat rl) rb) ->
+  ~ src_block kt G_vi_arg1 -> ~ src_block kt G_rep_len -> ~ src_block kt G_rep_cmd ->
+  forall (m : mem) (s : src) d fuel, src_at kt m s ->
+  cell_at m G_vi_arg1 a1 -> cell_at m G_rep_len rl -> nth_error m G_rep_cmd = Some rb -> (Z.to_nat (Z.max 1 a1) < fuel)%nat ->
+  exists m', callx ext cprog fuel (S (S d)) F_vc_repeat [] m = Ok (VUndef, m') /\
+             src_at kt m' (push_n_m (Z.to_nat (Z.max 1 a1)) (firstn (Z.to_nat rl) rb) s) /\ keeps kt m m'.
+Proof. exact tr_vc_repeat. Qed.
+Print Assumptions C09_tr_vc_repeat.
+
+(* the copies fit: afterwards vi_read() delivers the recorded keys N times, then what was pending ("N. = retyping N times") *)
+Theorem C09_tr_push_n_keys : forall cells n (s : src), src_ok s -> Z.of_nat n * Z.of_nat (length cells) <= IBUFSZ - s_cnt s ->
+  keys (push_n_m n cells s) = s_stk s ++ TrRepeat3.rpt n (map cell_key cells) ++ rest_keys s.
+Proof. exact push_n_keys. Qed.
+Print Assumptions C09_tr_push_n_keys.
+(* the copies do NOT fit: the queue is full and holds sizeof(ibuf) - ibuf_cnt of the pushed cells: the tail of the repetition is dropped *)
+Theorem C09_tr_push_n_clipped : forall cells n (s : src), src_ok s -> IBUFSZ - s_cnt s < Z.of_nat n * Z.of_nat (length cells) ->
+  s_cnt (push_n_m n cells s) = IBUFSZ /\
+  Z.of_nat (length (rest_keys (push_n_m n cells s))) = Z.of_nat (length (rest_keys s)) + (IBUFSZ - s_cnt s).
+Proof. exact push_n_clipped. Qed.
+Print Assumptions C09_tr_push_n_clipped.
+
